@@ -194,8 +194,16 @@ def reference_energy(spec: dict, atoms) -> float:
     if spec["style"] == "ase_lj":
         a = atoms.copy()
         a.calc = LennardJones(**spec.get("lj", LJ_DEFAULT))
-        return float(a.get_potential_energy())
+        return float(a.get_potential_energy())  # (includes the constraints' energy terms)
     e = Potential.from_json(spec["pot"]).energy(atoms)
-    # constraints may add to the potential energy in ASE (adjust_potential_energy); none
-    # of the constraints used by the campaigns does.
-    return float(e)
+    return float(e) + _constraint_energy(atoms)
+
+
+def _constraint_energy(atoms) -> float:
+    """What energy-adding constraints (Hookean restraints) contribute to atoms.get_potential_energy()."""
+    e = 0.0
+    for c in atoms.constraints:
+        f = getattr(c, "adjust_potential_energy", None)
+        if f is not None:
+            e += float(f(atoms))
+    return e
